@@ -66,7 +66,7 @@ CHECKS = {
          "3.C19"),
 }
 
-BUILT = ["C01", "C02", "C03", "C04", "C05", "C06", "C08", "C09", "C10", "C11", "C13", "C14", "C15", "C16", "C17", "C18", "C19"]
+BUILT = sorted(CHECKS)
 NOT_YET = {"C07": "monitor under construction in this commit (cross-configuration log comparison); will be claimed once built", "C12": "monitor under construction in this commit (Miri/ASan/guard-page parts); will be claimed once built"}
 
 def main():
